@@ -177,6 +177,7 @@ func main() {
 	run := func(in Fields) {
 		obs := p.Exec(in)
 		fmt.Fprintf(w, "%s | %s\n", in.String(), obs.String())
+		w.Flush() // a run cut short by a timeout still leaves every finished case behind
 		if p.Class != nil {
 			classes[p.Class(in)]++
 		}
